@@ -27,7 +27,7 @@ MANIFEST = {
             "model's log; opcode-based field location) and references encoded directly against an already bound label. Buffer growth, set_offset, named "
             "labels and the Builder path are not modelled. Model follows the repaired code (fixes/C03-1, C03-2).",
 }
-MODS = ["AsmjitVerif.Props.C03", "AsmjitVerif.Props.C03E", "AsmjitVerif.Props.C03B"]
+MODS = ["AsmjitVerif.Props.C03", "AsmjitVerif.Props.C03E", "AsmjitVerif.Props.C03B", "AsmjitVerif.Props.C03D"]
 M64 = (1 << 64) - 1
 
 JK = ["jmp", "jz", "call", "jecxz", "loop"]
